@@ -172,3 +172,27 @@ Proof.
   cbn [andb negb isNone]. rewrite slice_prefix, Nat2Z.id by (unfold nonce_len; lia).
   unfold ideal_key. reflexivity.
 Qed.
+
+(* ================================================================== *)
+(* phase 2: find/client FindAsync, one encrypted value key: a failure to decrypt it, to split it,
+   to fetch its metadata, or empty metadata, skips this key and the loop continues (model find_one) *)
+From Gen Require Import Gen_Funcs_findclient.
+
+Theorem FindAsync_skip_ladder_table :
+  forall (dvk : list N -> list N -> list N * option string) (split : list N -> list N * list N * option string)
+         (mh evk md : list N) (mderr : option string),
+  match findclient_FindAsync_skip_ladder dvk split mh evk mderr md with
+  | FFall _ =>
+      snd (dvk evk mh) = None /\ snd (split (fst (dvk evk mh))) = None /\ mderr = None /\ md <> []
+  | FContinue _ _ =>
+      snd (dvk evk mh) <> None \/ snd (split (fst (dvk evk mh))) <> None \/ mderr <> None \/ md = []
+  | _ => False
+  end.
+Proof.
+  intros. unfold findclient_FindAsync_skip_ladder.
+  destruct (dvk evk mh) as [vk [e|]]; cbn [fst snd isNone negb]; [left; discriminate|].
+  destruct (split vk) as [[p c] [e|]]; cbn [snd isNone negb]; [right; left; discriminate|].
+  destruct mderr; cbn [isNone negb]; [right; right; left; discriminate|].
+  rewrite len_eqb_0. destruct md; cbn [is_nil]; [right; right; right; reflexivity|].
+  repeat split; discriminate.
+Qed.
